@@ -306,6 +306,7 @@ func init() {
 			{Name: "readers", Race: true, QShards: 2, TShards: 4, Run: c08Readers},
 			{Name: "large", QShards: 2, TShards: 8, Run: func(c *Ctx) { alignLarge(c, alignOpts{validity: true}, c08Gen) }},
 			{Name: "parallel", Race: true, Run: alignParallel},
+			firstCallUnit(firstAlign("C08")),
 			{Name: "manycalls", QShards: 4, TShards: 6, Run: func(c *Ctx) { alignManyCalls(c, alignOpts{validity: true, local: true}, c08Gen) }},
 		},
 	})
@@ -327,6 +328,7 @@ func init() {
 			{Name: "reuse", TShards: 4, Run: func(c *Ctx) { alignReuse(c, alignOpts{validity: true, optimal: true}, 1) }},
 			{Name: "large", QShards: 2, TShards: 8, Run: func(c *Ctx) { alignLarge(c, alignOpts{validity: true, optimal: true}, c09Gen) }},
 			{Name: "manycalls", QShards: 4, TShards: 6, Run: func(c *Ctx) { alignManyCalls(c, alignOpts{validity: true, optimal: true, local: true}, c09Gen) }},
+			firstCallUnit(firstAlign("C09")),
 		},
 	})
 	register(&Property{
@@ -345,6 +347,7 @@ func init() {
 			{Name: "reuse", TShards: 4, Run: func(c *Ctx) { alignReuse(c, alignOpts{validity: true, optimal: true, knownC10: true}, 2) }},
 			{Name: "large", QShards: 2, TShards: 8, Run: func(c *Ctx) { alignLarge(c, alignOpts{validity: true, optimal: true, knownC10: true}, c10Gen) }},
 			{Name: "manycalls", QShards: 4, TShards: 6, Run: func(c *Ctx) { alignManyCalls(c, alignOpts{validity: true, optimal: true, knownC10: true, local: true}, c10Gen) }},
+			firstCallUnit(firstAlign("C10")[4:]),
 		},
 	})
 }
